@@ -3,6 +3,7 @@ import Anysystem.Spec.RefSpec
 import Anysystem.Spec.TimeLaws
 import Anysystem.Proofs.SimQueueThms
 import Anysystem.Proofs.SimNetThms
+import Anysystem.Proofs.SimLogThms
 /-!
 # R4 (partial: fault rates zero) — one simulator step is a reduced-enabled step of the reference semantics
 
@@ -19,6 +20,9 @@ reference state `r`:
   pending under its name in its process's timer map, and — this is what makes the reduction sound — every
   queued timer event `i` has a *set clock* `c_i` with `time_i = c_i + delay_i`, `c_i ≤ clock`, and set clocks
   are non-decreasing in creation order.
+
+The relation is the conjunction of five groups of clauses (`NetRel`, `TProcRel`, `QueueOk`, `TimerRel` and the
+`flights` clause); they are separate structures only so that each proof touches the clauses it changes.
 -/
 namespace Anysystem
 
@@ -39,50 +43,77 @@ def flightOfQ (loc : List (Nat × Nat)) (maxDelay : Nat) : QData → Option Flig
 /-- live queued events whose destination node still has a handler -/
 def Sim.deliverable (q : Sim σ T) : List (QEv T) := q.live.filter (fun e => q.handlers.contains e.dst)
 
-/-- ghost information about one queued timer event: its delay (as the natural number the program passed) and the
-    clock at which it was set -/
+/-- ghost information about one queued timer event: its event id, the process and timer name, its delay (as the
+    natural number the program passed) and the clock at which it was set -/
 structure TimerGhost (T : Type) where
   id : Nat
+  proc : Nat
+  name : Nat
   delay : Nat
   setClock : T
 
-structure TimedRel (bits : T → Nat) (q : Sim σ T) (r : RState σ) (ghosts : List (TimerGhost T)) : Prop where
-  /-- rates are zero on both sides, link controls and locations agree -/
+/-- the pending timer a ghost stands for -/
+def TimerGhost.toPTimer (g : TimerGhost T) : PTimer := ⟨g.proc, g.name, g.delay⟩
+
+/-- network part: rates are zero on both sides, link controls and locations agree, crashed = no handler -/
+structure NetRel (bits : T → Nat) (q : Sim σ T) (r : RState σ) : Prop where
   ratesZero : q.net.dropRate = TimeOps.zero ∧ q.net.duplRate = TimeOps.zero ∧ q.net.corruptRate = TimeOps.zero
   netFlags : r.net.dropPos = false ∧ r.net.duplNonzero = false ∧ r.net.corruptPos = false
   netLoc : r.net.procLoc = q.net.procLoc
-  /-- a directed path is cut in `r` exactly when it is cut in `q` or touches a node without handler -/
-  netCut : ∀ a b, r.net.pathEnabled a b = (!(q.pathCut a b) && q.handlers.contains a && q.handlers.contains b)
+  /-- from a node with handler to an existing node: the directed path is enabled in `r` exactly when it is not cut
+      in `q` and the target has a handler -/
+  netCut : ∀ a b, a ∈ q.handlers → amHas b q.nodes = true →
+    r.net.pathEnabled a b = (!(q.pathCut a b) && q.handlers.contains b)
   maxDelay : r.net.maxDelay = bits q.net.maxDelay
-  /-- processes of live nodes: same state and outbox -/
-  procs : ∀ n nd p e, amGet? n q.nodes = some nd → amGet? p nd.procs = some e →
-    amGet? p r.procs = some ⟨e.st, e.outbox⟩ ∧ amGet? p q.net.procLoc = some n
-  procsBack : ∀ p rp, amGet? p r.procs = some rp → ∃ n nd e, amGet? n q.nodes = some nd ∧ amGet? p nd.procs = some e
-  /-- crashed = no handler -/
+  /-- crashed = existing node without handler -/
   crashed : ∀ n, n ∈ r.crashedNodes ↔ (amHas n q.nodes = true ∧ ¬ n ∈ q.handlers)
-  /-- in-flight messages, as a multiset -/
-  flights : r.flights.Perm ((q.deliverable.filterMap fun e => flightOfQ q.net.procLoc r.net.maxDelay e.data))
-  /-- pending timers = deliverable timer events in creation order, with their ghosts -/
-  timers : r.timers = ghosts.filterMap fun g =>
-    (q.deliverable.find? (fun e => e.id == g.id)).bind fun e => match e.data with
-      | .timer p name => some ⟨p, name, g.delay⟩
-      | _ => none
-  ghostsSorted : (ghosts.map (·.id)).Pairwise (· < ·)
-  ghostsCover : ∀ e ∈ q.deliverable, (∃ p name, e.data = .timer p name) → ∃ g ∈ ghosts, g.id = e.id
-  ghostsLive : ∀ g ∈ ghosts, ∃ e ∈ q.deliverable, e.id = g.id ∧ ∃ p name, e.data = .timer p name
-  ghostTime : ∀ g ∈ ghosts, ∀ e ∈ q.events, e.id = g.id →
-    e.time = TimeOps.add g.setClock (TimeOps.ofBits g.delay) ∧ TimeOps.le g.setClock q.clock = true
-  ghostMono : ghosts.Pairwise (fun a b => TimeOps.le a.setClock b.setClock = true)
-  /-- the per-process timer maps mirror the queue: a name is pending iff it maps to a live timer event of that process -/
-  pendMap : ∀ n nd p e, amGet? n q.nodes = some nd → n ∈ q.handlers → amGet? p nd.procs = some e → ∀ name id,
-    amGet? name e.pending = some id ↔ ∃ ev ∈ q.live, ev.id = id ∧ ev.data = .timer p name
+  /-- processes are located on existing nodes -/
+  locNodes : ∀ p n, amGet? p q.net.procLoc = some n → amHas n q.nodes = true
+
+/-- processes: same state and outbox -/
+structure TProcRel (q : Sim σ T) (r : RState σ) : Prop where
+  procs : ∀ n p e, q.proc? n p = some e →
+    amGet? p r.procs = some ⟨e.st, e.outbox⟩ ∧ amGet? p q.net.procLoc = some n
+  procsBack : ∀ p rp, amGet? p r.procs = some rp → ∃ n e, q.proc? n p = some e
+
+/-- well-formedness of the event queue of the simulator (no reference state involved) -/
+structure QueueOk (q : Sim σ T) : Prop where
   queueWF : q.QueueWF
   clockOk : q.ClockOk
-  uniq : r.timersUnique
+  /-- cancelled ids are ids that were handed out -/
+  cancWF : ∀ id ∈ q.canceled, id < q.eventCount
+  delaysOk : TimeOps.le TimeOps.zero q.net.minDelay = true ∧ TimeOps.le q.net.minDelay q.net.maxDelay = true
   /-- timer events live on their process's node -/
   timerLoc : ∀ e ∈ q.live, ∀ p name, e.data = .timer p name → e.dst = e.src ∧ amGet? p q.net.procLoc = some e.dst
   msgLoc : ∀ e ∈ q.live, ∀ mid m src sn dst dn, e.data = .msg mid m src sn dst dn →
     e.dst = dn ∧ amGet? dst q.net.procLoc = some dn ∧ amGet? src q.net.procLoc = some sn
+
+/-- pending timers = deliverable timer events in creation order, with their ghosts -/
+structure TimerRel (bits : T → Nat) (q : Sim σ T) (r : RState σ) (ghosts : List (TimerGhost T)) : Prop where
+  timers : r.timers = ghosts.map TimerGhost.toPTimer
+  ghostsSorted : (ghosts.map (·.id)).Pairwise (· < ·)
+  ghostsCover : ∀ e ∈ q.deliverable, ∀ p name, e.data = .timer p name → ∃ g ∈ ghosts, g.id = e.id
+  ghostsLive : ∀ g ∈ ghosts, ∃ e ∈ q.deliverable, e.id = g.id ∧ e.data = .timer g.proc g.name ∧
+    e.time = TimeOps.add g.setClock (TimeOps.ofBits g.delay)
+  ghostClock : ∀ g ∈ ghosts, TimeOps.le g.setClock q.clock = true
+  ghostMono : ghosts.Pairwise (fun a b => TimeOps.le a.setClock b.setClock = true)
+  /-- delays are bit patterns that survive the round trip through the time type -/
+  ghostBits : ∀ g ∈ ghosts, bits (TimeOps.ofBits g.delay : T) = g.delay
+  /-- the per-process timer maps mirror the queue: a name is pending iff it maps to a live timer event of that process -/
+  pendMap : ∀ n p e, n ∈ q.handlers → q.proc? n p = some e → ∀ name id,
+    amGet? name e.pending = some id ↔ ∃ ev ∈ q.live, ev.id = id ∧ ev.data = .timer p name
+  uniq : r.timersUnique
+
+/-- in-flight messages, as a multiset -/
+def FlightRel (q : Sim σ T) (r : RState σ) : Prop :=
+  r.flights.Perm (q.deliverable.filterMap fun e => flightOfQ q.net.procLoc r.net.maxDelay e.data)
+
+structure TimedRel (bits : T → Nat) (q : Sim σ T) (r : RState σ) (ghosts : List (TimerGhost T)) : Prop where
+  net : NetRel bits q r
+  proc : TProcRel q r
+  queue : QueueOk q
+  timer : TimerRel bits q r ghosts
+  flights : FlightRel q r
 
 /-- the process-visible projection the property speaks about -/
 def visibleEq (q : Sim σ T) (r : RState σ) : Prop :=
